@@ -100,14 +100,23 @@ Proof.
   - apply backoff_killed in B as (sl & ->). auto.
 Qed.
 
-Lemma proxy_next_via s p : proxy_next s = PxVia p -> p <> leader s /\ att_at s p < 1.
+Lemma proxy_cand_facts s p : proxy_cand (leader s) p (rep_at s p) = true -> p <> leader s /\ att_at s p < 1.
 Proof.
-  unfold proxy_next. cbv zeta. destruct (is_reachable _ || _); [discriminate|].
-  destruct (find _ _) as [q|] eqn:F; [|discriminate]. intros H; injection H as <-.
-  apply find_some in F as [_ F]. unfold proxy_cand, exhausted in F. repeat (apply andb_prop in F as [F ?]).
+  intros F. unfold proxy_cand, exhausted in F. repeat (apply andb_prop in F as [F ?]).
   split.
   - intros ->. rewrite Nat.eqb_refl in F. discriminate.
   - match goal with X : negb (1 <=? _) = true |- _ => apply negb_true_iff, Nat.leb_gt in X; now rewrite att_at_rep in X end.
+Qed.
+
+Lemma proxy_next_via s p : proxy_next s = PxVia p -> p <> leader s /\ att_at s p < 1.
+Proof.
+  unfold proxy_next. cbv zeta. destruct (proxy_unneeded s); [discriminate|].
+  assert (SC : match find (fun i => proxy_cand (leader s) i (rep_at s i)) (seq 0 (length (reps s))) with Some q => PxVia q | None => PxNone end = PxVia p ->
+               p <> leader s /\ att_at s p < 1).
+  { destruct (find _ _) as [q|] eqn:F; [|discriminate]. intros H; injection H as <-. apply find_some in F as [_ F]. now apply proxy_cand_facts. }
+  destruct (pidx s) as [q|]; [|exact SC].
+  destruct ((q <? length (reps s)) && proxy_cand (leader s) q (rep_at s q)) eqn:Q; [|exact SC].
+  intros H; injection H as <-. apply andb_prop in Q as [_ Q]. now apply proxy_cand_facts.
 Qed.
 
 Lemma sel_phase_spec c s :
@@ -123,7 +132,7 @@ Proof.
   match goal with |- context [match ?e with Some _ => _ | None => _ end] => destruct e as [s0|] eqn:G end; [|apply NC].
   assert (E0 : atts s0 = atts s).
   { destruct (inv_retry s); [inversion G; atts_norm; reflexivity|]. destruct (valid s); inversion G; reflexivity. }
-  set (s1 := set_proxy None (set_sel_attempts (sat3 (S (sel_attempts s0))) s0)).
+  set (s1 := set_proxy None (set_sel_attempts (sat3 (S (sel_attempts s0))) (unset_if c s0))).
   assert (E1 : atts s1 = atts s) by (subst s1; atts_norm; assumption).
   destruct (if rt_eqb (rt s1) RTLeader && c_fw c then proxy_next s1 else PxLeaderOnly) as [|p|] eqn:PX; [| |apply NC].
   2: { assert (PV : proxy_next s1 = PxVia p) by (destruct (rt_eqb (rt s1) RTLeader && c_fw c); [assumption|discriminate]).
